@@ -582,6 +582,9 @@ def strip(t):
         if t[0] in ("ref", "rawref", "deref", "rawcast"):
             t = t[1]
             continue
+        if t[0] == "defat" and t[2][0] != "defat" and False:
+            t = t[2]
+            continue
         if t[0] == "call" and t[1] in VIEW_CALLS and t[2]:
             t = t[2][0]
             continue
@@ -649,7 +652,17 @@ def term_str(t, depth=0):
         return str(t)
     if depth > 6:
         return "…"
+    if not t:
+        return "()"
+    if not isinstance(t[0], str):
+        return "(%s)" % ", ".join(term_str(x, depth + 1) for x in t)
     k = t[0]
+    if k == "mu":
+        return "μ[%s]" % " | ".join(term_str(a, depth + 1) for a in t[1][:4])
+    if k == "rec" and len(t) == 2:
+        return "↺"
+    if k == "defat":
+        return term_str(t[2], depth)
     r = lambda x: term_str(x, depth + 1)
     if k == "param":
         return "param:%s" % (t[3] or t[2])
